@@ -167,7 +167,9 @@ def handle (op : String) (args : List String) : Option String :=
     pure (match r with | none => "err" | some _ => "run")
   | "c22.charset.panics", [b] => do
     let b ← bytesOfHex b
-    pure (if Utf8.lossy b ≠ b then "panic" else "nopanic")
+    -- `Charset.encodeCharset` with the label "utf-8" (always known): ill-formed UTF-8 is an error
+    -- (it was an `unwrap` panic before /repo e4ac0e1), anything else encodes
+    pure (if Utf8.lossy b ≠ b then "err" else "ok")
   | "o.c22", codec :: opts :: b :: "|" :: enc :: dec :: flags => do
     let b ← bytesOfHex b
     let enc ← resOfObs enc
